@@ -5,7 +5,7 @@ ids=$(/venv/bin/python -c "import json;print(' '.join(sorted(json.load(open('/ve
 for seed in "$@"; do
   for id in $ids; do
     t0=$(date +%s)
-    VERIF_SEED=$seed VERIF_TIER=$tier timeout 7200 ./check $id > /tmp/runall.$id.$seed.log 2>&1; rc=$?
+    VERIF_SEED=$seed VERIF_TIER=$tier timeout 2400 ./check $id > /tmp/runall.$id.$seed.log 2>&1; rc=$?
     echo "$id seed=$seed tier=$tier rc=$rc $(( $(date +%s) - t0 ))s $(grep -c KNOWN-FINDING /tmp/runall.$id.$seed.log) known $(grep VIOLATION /tmp/runall.$id.$seed.log | head -2 | tr '\n' ' ')"
   done
 done
